@@ -93,7 +93,10 @@ def jobs(tier):
             add("merge", S, n, S * n + 2, b0=b0)
     for b0 in (False, True):
         for b1 in (False, True):
-            add("merge", 3, 1 if q else 2, 5 if q else 8, b0=b0, b1=b1)
+            add("merge", 3, 1, 5, b0=b0, b1=b1)
+            if not q:
+                for L in ([2, 2, 1], [2, 1, 2], [1, 2, 2], [2, 2, 2]):
+                    add("merge", 3, 2, 8, b0=b0, b1=b1, L=L)
     for op in ("all", "any"):
         add(op, 1, 4 if q else 6, 0)
     # callables that work at call time and return an awaitable: every call is a use
